@@ -62,6 +62,7 @@ var reviewedPanics = map[string]string{
 }
 
 func C07(p *core.Prog, r *core.Report) {
+	r.Rule("COMMIT-BODY", "in every GenBank sub-parser keyed on a fixed field name, each error return behind the recognised name is preceded on every path by a commit (state.Clear(), or a Pop of the dispatcher's frame), so that a malformed field is an error and not an unknown field that is skipped; reviewed lenient fallbacks excepted (CONTIG, REFERENCE)", 5)
 	r.Rule("PUSH-POP", "in every parser-reachable function that calls (*pars.State).Push, every path from a Push to a return passes exactly one Pop or Drop (Clear closes all frames; `!state.Pushed()` means they are already closed): an error return that leaves the frame open makes pars.Any try its next alternative from the middle of the input", 13)
 	r.Rule("COMMIT", "the GenBank sub-parsers keep their reviewed commit points (state.Clear(), or a Pop of the dispatcher's frame, turns a failure behind a recognised field name into a hard error instead of a backtracked one), and the feature-table parser only runs after one on every path", 5)
 	r.Rule("PANIC", "every explicit panic(...) statement in a function reachable from the parser entry points is in the reviewed table of panics whose condition input text cannot reach (one reason per function)", 2)
@@ -71,7 +72,7 @@ func C07(p *core.Prog, r *core.Report) {
 	r.Rule("REQ-ADV", "every (*pars.State).Advance is preceded on every path by a Request (or pars.Next) whose error was tested nil, with no other Advance in between (Advance panics without a pending Request)", 10)
 	r.Rule("RES", "wherever a parser is run through Parse(...) the (Result, error) pair's error is tested and returned before the result is read", 3)
 	r.Rule("MUSTC", "no regexp.MustCompile of a non-constant pattern and no integer division by a non-constant in parser-reachable code", 0)
-	r.NotDecided = append(r.NotDecided, "termination and linear time (needs a progress measure per loop)", "type assertions and constant children of a parse result (fixed by the shape of the parser, settled by any test that runs it)", "the clause that inconsistent records (LOCUS length disagreeing with ORIGIN) are reported as errors: the record loop deliberately skips lines no sub-parser recognises")
+	r.NotDecided = append(r.NotDecided, "termination and linear time (needs a progress measure per loop)", "type assertions and constant children of a parse result (fixed by the shape of the parser, settled by any test that runs it)", "residues beyond the declared length (on the last counted line or on further lines) are ignored without an error: the record loop deliberately skips lines no sub-parser recognises; a record without any ORIGIN block is accepted as an empty sequence")
 	r.Assumptions = append(r.Assumptions, "the Go compiler's prove pass is a sound value-range analysis (sites absent from its report are in bounds)", "strings/bytes IndexByte/Index return -1 or an index i with i+len(needle) <= len(s)", "(*pars.State).Request(n) returns nil only when n bytes are buffered; pars.Next is Request(1)", "explicit panic(...) statements are developer assertions and are not trap sites")
 	reach, missing := Reach(p, Roots)
 	for _, m := range missing {
@@ -260,6 +261,9 @@ func runTraps(p *core.Prog, r *core.Report, reach map[*ssa.Function]bool, parser
 			t.pushPop(info, body, label)
 		}
 		t.commit(info, body, label, clears)
+		if parser {
+			t.commitBody(info, body, label)
+		}
 	}
 	for fn, want := range commitPoints {
 		if !parser {
@@ -489,6 +493,132 @@ func (t *trapCtx) advance(info *types.Info, body *ast.BlockStmt, label string) {
 		} else {
 			r.Ok("REQ-ADV", key, p.Pos(c.Pos()), "every path to this Advance passed a Request/Next whose error was tested nil")
 		}
+	}
+}
+
+// lenient: sub-parsers that deliberately fall back to an opaque extra field
+// when their body does not parse (reviewed, one reason each).
+var lenient = map[string]string{
+	"seqio.genbankContigParser":    "real CONTIG lines (several parts, gap()) are outside what the parser models; keeping them as an opaque extra field loses nothing",
+	"seqio.genbankReferenceParser": "a REFERENCE line the parser cannot read is kept verbatim as an extra field; the property names no REFERENCE inconsistency",
+}
+
+// commitBody decides COMMIT-BODY for one sub-parser closure: once a fixed
+// field name has been recognised, every error return is a committed one.
+func (t *trapCtx) commitBody(info *types.Info, body *ast.BlockStmt, label string) {
+	d := t.nn.outerDecl(body)
+	if d == nil || !strings.HasPrefix(label, "seqio.") || !(strings.HasPrefix(d.Name.Name, "genbank") || d.Name.Name == "makeGenbankOriginParser") {
+		return
+	}
+	// the name parser: a local of the generator defined as genbankFieldNameParser("CONST", depth)
+	asg := core.Assigns(info, d.Body)
+	nameVars := map[types.Object]string{}
+	for o, as := range asg {
+		for _, a := range as {
+			if c, ok := ast.Unparen(a.RHS).(*ast.CallExpr); a.RHS != nil && ok && core.IsCallTo(info, c, core.PkgSeqio+".genbankFieldNameParser") && len(c.Args) == 2 {
+				if s, ok := core.ConstString(info, c.Args[0]); ok {
+					nameVars[o] = s
+				}
+			}
+		}
+	}
+	if len(nameVars) == 0 {
+		return
+	}
+	hasPush := false
+	field := ""
+	ast.Inspect(body, func(n ast.Node) bool {
+		if fl, ok := n.(*ast.FuncLit); ok && fl.Body != body {
+			return false
+		}
+		if c, ok := n.(*ast.CallExpr); ok {
+			if core.IsCallTo(info, c, parsPkg+".State.Push") {
+				hasPush = true
+			}
+			if id, ok := ast.Unparen(c.Fun).(*ast.Ident); ok {
+				if f, ok := nameVars[core.ObjOf(info, id)]; ok {
+					field = f
+				}
+			}
+		}
+		return true
+	})
+	if field == "" {
+		return
+	}
+	fl := core.NewFlow(info, body)
+	type st struct{ named, committed bool }
+	var bad []token.Pos
+	nRet := 0
+	seen := map[token.Pos]bool{}
+	core.Scan(fl, fl.Entry(), st{}, core.Stepper[st]{
+		Node: func(s st, n ast.Node) (st, bool) {
+			if ret, ok := n.(*ast.ReturnStmt); ok && len(ret.Results) == 1 {
+				if !core.IsNil(info, ret.Results[0]) && s.named {
+					if !seen[ret.Pos()] {
+						nRet++
+						seen[ret.Pos()] = true
+					}
+					if !s.committed {
+						bad = append(bad, ret.Pos())
+					}
+				}
+				return s, false
+			}
+			for _, c := range core.NodeCalls(n) {
+				if id, ok := ast.Unparen(c.Fun).(*ast.Ident); ok {
+					if _, ok := nameVars[core.ObjOf(info, id)]; ok {
+						// the name parser runs in the condition `if err := name(...); err != nil`: the
+						// error edge returns before anything else, so what follows has the name
+						s.named = true
+						continue
+					}
+				}
+				if core.IsCallTo(info, c, parsPkg+".State.Clear") || (!hasPush && core.IsCallTo(info, c, parsPkg+".State.Pop", parsPkg+".State.Drop")) {
+					s.committed = true
+				}
+			}
+			return s, false
+		},
+	})
+	// the return that hands back the name parser's own error is not a body failure:
+	// it is the first return after the call; drop it from `bad`
+	var firstRet token.Pos
+	ast.Inspect(body, func(n ast.Node) bool {
+		if is, ok := n.(*ast.IfStmt); ok && firstRet == 0 && is.Init != nil {
+			for _, c := range core.NodeCalls(is.Init) {
+				if id, ok := ast.Unparen(c.Fun).(*ast.Ident); ok {
+					if _, ok := nameVars[core.ObjOf(info, id)]; ok {
+						for _, r := range core.Returns(is.Body) {
+							firstRet = r.Pos()
+						}
+					}
+				}
+			}
+		}
+		return true
+	})
+	var real []token.Pos
+	dup := map[token.Pos]bool{}
+	for _, b := range bad {
+		if b != firstRet && !dup[b] {
+			dup[b] = true
+			real = append(real, b)
+		}
+	}
+	sort.Slice(real, func(i, j int) bool { return real[i] < real[j] })
+	key := label + "|" + field
+	switch {
+	case len(real) == 0:
+		t.r.Ok("COMMIT-BODY", key, t.p.Pos(body.Pos()), "every error return behind the recognised "+field+" name is committed (or there is none)")
+	case lenient[label] != "":
+		t.r.Ok("COMMIT-BODY", key, t.p.Pos(body.Pos()), "reviewed lenient fallback: "+lenient[label])
+	default:
+		var where []string
+		for _, q := range real {
+			where = append(where, t.p.Pos(q))
+		}
+		t.r.Bad("COMMIT-BODY", key, where[0], fmt.Sprintf("%d error return(s) behind the recognised %s field name are not committed (%s): the dispatcher backtracks, the catch-all parser swallows the field as an unknown one and the record is returned without an error - with an empty sequence if this is ORIGIN", len(real), field, strings.Join(where, ", ")))
 	}
 }
 
